@@ -113,6 +113,15 @@ func (a *GsfaWriter) fullBufferWriter() {
 			klog.Infof("remaining %d buffers to flush", len(a.fullBufferWriterChan))
 		}
 		if a.exiting.Load() && len(a.fullBufferWriterChan) == 0 {
+			// flush the buffers that are still parked before exiting:
+			for _, buf := range tmpBuf {
+				if len(buf.Values) == 0 {
+					continue
+				}
+				if err := a.flushKVs(buf); err != nil {
+					klog.Errorf("Error while flushing transactions for key %s: %v", buf.Key, err)
+				}
+			}
 			vh("bgDone")
 			a.fullBufferWriterDone <- struct{}{}
 			return // exit
@@ -233,14 +242,15 @@ const itemsPerBatch = 1000
 func (a *GsfaWriter) Close() error {
 	a.mu.Lock()
 	defer a.mu.Unlock()
-	if err := a.flushAccum(a.accum); err != nil {
-		return err
-	}
+	// let the background writer flush all the full batches first (they are older than what is left in accum):
 	vh("setExit")
 	a.exiting.Store(true)
 	klog.Info("Closing linked log...")
 	vh("waitBg")
 	<-a.fullBufferWriterDone
+	if err := a.flushAccum(a.accum); err != nil {
+		return err
+	}
 	klog.Info("Closing full buffer writer...")
 	a.cancel()
 	{
